@@ -401,14 +401,14 @@ Proof.
 Qed.
 
 (* an empty description does not survive the writer *)
-Definition f28_identity : identity :=
+Definition f48_identity : identity :=
   {| i_pub := k32 "S"; i_priv := None; i_addr := bs "tls://10.0.0.1:7770"; i_desc := []; i_url := []; i_srv := [] |}.
 
 Theorem empty_description_roundtrip_refuted :
   exists r suite i st, write_server r suite true i = Some st /\
     exists i', to_server_identity true r st = IOk i' /\ i' <> i /\ i_desc i = [] /\ i_desc i' = default_description.
 Proof.
-  exists [], (bs "Ed25519"), f28_identity. eexists. split; [reflexivity|].
+  exists [], (bs "Ed25519"), f48_identity. eexists. split; [reflexivity|].
   eexists. split; [reflexivity|]. repeat split; discriminate.
 Qed.
 
